@@ -1,15 +1,20 @@
 #!/usr/bin/env python3
-"""Must-fail selftest: applies each deliberate property-breaking edit to /repo, runs the quick check of the
-properties it should break, expects exit 1 with a VIOLATION line, and restores the file. Never leaves /repo dirty."""
+"""Must-fail selftest: applies each deliberate property-breaking edit to a scratch worktree of /repo under /tmp
+(never to /repo itself), points the engine at it (EVYVC_REPO, EVYVC_OUT), runs the quick check of the properties it
+should break and expects exit 1 with a VIOLATION line. The worktree is removed at the end."""
 import json, subprocess, sys, os, time
 V = "/verif"
 muts = json.load(open(f"{V}/selftest/mutants.json"))
+R = "/tmp/repo-mut"
+subprocess.run(["git", "-C", "/repo", "worktree", "remove", "--force", R], capture_output=True)
+subprocess.run(["git", "-C", "/repo", "worktree", "add", "--detach", R, "HEAD"], capture_output=True, check=True)
+ENV = dict(os.environ, EVYVC_REPO=R, EVYVC_OUT="/tmp/mut-out", EVYVC_FAST="1")
 only = sys.argv[1:]
 res = []
 for m in muts:
     if only and not any(o in m["id"] or o in m["props"] for o in only):
         continue
-    path = "/repo/" + m["file"]
+    path = R + "/" + m["file"]
     src = open(path).read()
     if src.count(m["old"]) != 1:
         print(f"{m['id']}: SKIP (pattern occurs {src.count(m['old'])} times)")
@@ -17,7 +22,7 @@ for m in muts:
         continue
     try:
         open(path, "w").write(src.replace(m["old"], m["new"]))
-        b = subprocess.run(["go", "build", "./..."], cwd="/repo", capture_output=True, text=True,
+        b = subprocess.run(["go", "build", "./..."], cwd=R, capture_output=True, text=True,
                            env=dict(os.environ, GOFLAGS="-mod=mod", GOPROXY="off", GOSUMDB="off", GOTOOLCHAIN="local"))
         if b.returncode != 0:
             print(f"{m['id']}: SKIP (does not compile) {b.stderr[:200]}")
@@ -27,7 +32,7 @@ for m in muts:
             if only and p not in only and not any(o in m["id"] for o in only):
                 continue
             t0 = time.time()
-            r = subprocess.run([f"{V}/bin/evyvc", "check", "--prop", p], cwd=V, capture_output=True, text=True)
+            r = subprocess.run([f"{V}/bin/evyvc", "check", "--prop", p], cwd=V, capture_output=True, text=True, env=ENV)
             det = r.returncode == 1 and "VIOLATION" in r.stdout
             fails = [l for l in r.stdout.splitlines() if l.startswith("failed obligation")]
             print(f"{m['id']} {p}: {'DETECTED' if det else 'MISSED (exit %d)' % r.returncode} {time.time()-t0:.0f}s  {fails[:3]}")
@@ -36,6 +41,9 @@ for m in muts:
             res.append((m["id"] + ":" + p, "detected" if det else "missed"))
     finally:
         open(path, "w").write(src)
+subprocess.run(["git", "-C", "/repo", "worktree", "remove", "--force", R], capture_output=True)
+subprocess.run(["rm", "-rf", "/tmp/mut-out"])
+json.dump(res, open(f"{V}/work/mutant_results.json", "w"), indent=1)
 missed = [r for r in res if r[1] == "missed"]
 print(f"{len(res)} runs, {len(missed)} missed: {missed}")
 st = subprocess.run(["git", "-C", "/repo", "status", "--short"], capture_output=True, text=True).stdout
